@@ -46,14 +46,24 @@ def instances(tier, seed):
                             label="tdrk %s n=2 time-dependent=%s" % (m, td), key="rk/%s" % m))
     for m in ("RKF45", "Cash-Karp45"):
         out.append(dict(op="adaptive", method=m, max_trials=2, label="adaptive %s: accept/reject bookkeeping (<= 2 trials)" % m, key="adaptive/%s" % m, run_opts=dict(max_paths=6000)))
-    for order in ((2,) if tier == "quick" else (2, 4)):
-        out.append(dict(op="adaptive_taylor", order=order, max_trials=3, label="adaptive Taylor P&C order %d: every trial (<= 3 per call) applies the polynomial of ITS step to the state it started from" % order,
+    for order in ((2,) if tier == "quick" else (2, 3)):      # order 4 with three trials: memory cap
+        out.append(dict(op="adaptive_taylor", order=order, max_trials=(3 if order == 2 else 2), label="adaptive Taylor P&C order %d: every trial (<= %d per call) applies the polynomial of ITS step to the state it started from" % (order, 3 if order == 2 else 2),
                         key="adaptive/taylor", run_opts=dict(max_paths=6000, budget_s=120.0)))
     # variable-mean-field scheme: the right-hand side handed to the ODE solver against the gauge-fixed TDVP equations (matrix form, dense blocks)
+    # (n=3 with force_ovlp, n=3 complex: memory cap while building terms - outside the bound)
+    vmf = [(2, False, "real", 2), (2, True, "real", 1)]
+    if tier == "thorough":
+        vmf += [(2, True, "real", 2), (3, False, "real", 1), (2, False, "cplx", 2), (2, True, "cplx", 1), (3, False, "real", 2)]
+    for n_, force, kind, ob in vmf:
+        # small solver budget: the obligations are decided by normal form; what the budget buys is only the satisfiability of the path condition (eigen-decomposition
+        # contracts of polynomial matrices), which z3 does not find - the float-build twin below is the reachability witness of the same harness key
+        out.append(dict(op="vmf", force=force, kind=kind, n=n_, obond=ob, run_opts=dict(max_paths=400, budget_s=8.0), limit_s=900,
+                        label="tdvp_vmf right-hand side n=%d bond 2 operator bond %d force_ovlp=%s %s state" % (n_, ob, force, kind), key="vmf/%s" % ("force_ovlp" if force else "canonical")))
     for force in (False, True):
-        for kind in (("real",) if tier == "quick" else ("real", "cplx")):
-            out.append(dict(op="vmf", force=force, kind=kind, n=3, run_opts=dict(max_paths=400, budget_s=300.0), limit_s=900,
-                            label="tdvp_vmf right-hand side n=3 bond 2 force_ovlp=%s %s state" % (force, kind), key="vmf/%s" % ("force_ovlp" if force else "canonical")))
+        for kind in ("real", "cplx"):
+            out.append(dict(op="vmf", force=force, kind=kind, n=3, obond=2, concrete=True,
+                            label="[float build] tdvp_vmf right-hand side n=3 bond 2 operator bond 2 force_ovlp=%s %s state (real LAPACK; reachability witness)" % (force, kind),
+                            key="vmf/%s" % ("force_ovlp" if force else "canonical")))
     out.append(dict(op="dispatch", label="Mps.evolve dispatch table and normalisation switch", key="dispatch"))
     # the real projector-splitting sweeps of the chain with the local Krylov propagator replaced by a contract stub
     chains = [(("e", "e"), (1, 2, 1)), (("e", "e", "e"), (1, 2, 2, 1))]
@@ -563,10 +573,27 @@ def h_vmf(ctx, P):
     model = lib.make_model(tuple(["s"] * n))
     psi = sym_state(ctx, model, n, 2, kind=P["kind"])
     psi.compress_config = CompressConfig(CompressCriteria.fixed, max_bonddim=16)
-    if force:
-        psi.to_right = False
-        psi.qnidx = n - 1
-    H = sym_op(ctx, model, n, P.get("obond", 1), "o")
+    # centre at the right end, sweeping left: the book-keeping of a left-canonical state (force_ovlp: the scheme then skips the canonicalisation)
+    psi.to_right = False
+    psi.qnidx = n - 1
+    if P.get("concrete_h"):
+        # a fixed non-symmetric operator with dyadic entries (bond 2): the equations are then polynomial identities in the STATE's entries only
+        from renormalizer.mps import Mpo
+        H = Mpo()
+        H.model = model
+        vals = [0.5, -1.25, 2.0, 0.75, -0.5, 1.5, -2.0, 0.25, 1.0, -0.75, 3.0, -1.5, 0.125, 2.5, -0.25, 1.75]
+        ob = [1] + [2] * (n - 1) + [1]
+        kk = 0
+        for i in range(n):
+            t = np.zeros((ob[i], 2, 2, ob[i + 1]))
+            for ix in np.ndindex(*t.shape):
+                t[ix] = vals[kk % len(vals)] * (1 + kk // len(vals))
+                kk += 1
+            H.append(t)
+        H.build_empty_qn()
+        H.offset = 0.0
+    else:
+        H = sym_op(ctx, model, n, P.get("obond", 1), "o")
     Hd = lib.dense_op(lib.tensors(H))
     psi.evolve_config = EvolveConfig(EvolveMethod.tdvp_vmf, force_ovlp=force)
     psi.evolve_config.vmf_auto_switch = False
@@ -603,7 +630,15 @@ def h_vmf(ctx, P):
 
         @staticmethod
         def eigh(a, *aa, **k):
-            w, u = inner_eigh(a, *aa, **k)
+            arr = np.asarray(a)
+            if arr.dtype == object and not any(hasattr(x, "re") for x in arr.flat):
+                a = arr.astype(complex)          # an all-concrete object array (the trivial 1x1 overlap at the chain end)
+                if not np.any(a.imag):
+                    a = a.real
+                import scipy.linalg as _sl2
+                w, u = _sl2.eigh(a, *aa, **k)
+            else:
+                w, u = inner_eigh(a, *aa, **k)
             eigs.append((np.array(np.asarray(a)), w, u))
             return w, u
 
@@ -616,10 +651,15 @@ def h_vmf(ctx, P):
     mpsmod.scipy = _SP()
     try:
         try:
-            # the left-canonical gauge the scheme establishes first is not re-derived here (C04): canonicalise is the identity, so the equations are compared as
-            # polynomial identities on an arbitrary state (the reference uses the same left-gauge form 1 - A A^h of the projector)
-            with IdentityCompression():
+            # the left-canonical gauge the scheme establishes first is not re-derived here (C04): the gauge test answers "already canonical", so the equations are
+            # compared as polynomial identities on an arbitrary state (the reference uses the same left-gauge form 1 - A A^h of the projector)
+            from renormalizer.mps.mp import MatrixProduct as _MP
+            saved_clc = _MP.check_left_canonical
+            _MP.check_left_canonical = lambda self_, *a, **k: True
+            try:
                 psi.evolve(H, 0.1, normalize=False)
+            finally:
+                _MP.check_left_canonical = saved_clc
         except _Done:
             pass
     finally:
@@ -641,17 +681,19 @@ def h_vmf(ctx, P):
 
     def regularised(w):
         out = []
+        from fractions import Fraction
         for x in np.asarray(w):
             pos = bool(x > 0)
-            x = x if pos else 0
-            out.append(x + eps * npx.exp(-x / eps))
+            if pos:
+                out.append(x + eps * npx.exp(-x / eps))
+            else:
+                # clamped to zero: 0 + eps * exp(0); exact arithmetic on the symbolic side (the double eps is an exact rational there)
+                out.append(Fraction(eps) if ctx.symbolic else eps)
         return out
 
     def inv_from(M, reg, what):
         """inverse of the Hermitian matrix M through the decomposition the code requested for it (found by its argument, either index convention)"""
         M = np.asarray(M)
-        if M.shape == (1, 1) and not ctx.symbolic or (M.shape == (1, 1) and not hasattr(M[0, 0], "re")):
-            pass
         for a, w, u in eigs:
             if a.shape != M.shape:
                 continue
@@ -752,15 +794,24 @@ def main(tier, seed):
         explanation="Mps.evolve with the three propagation-and-compression schemes on symbolic states (2 sites, thorough 3), symbolic operators and symbolic dt, canonicalise/compress as "
                     "identity: Taylor orders 1,2,4 (1-5) against sum_k c_k(-i dt H)^k; RK4 and the general RK driver for all eight non-embedded tableaux with constant and "
                     "time-dependent H(t) = H0 + t H1 against the Runge-Kutta map; the adaptive driver for RKF45 and Cash-Karp on a one-site system with an arbitrary (solver-chosen) "
-                    "error estimate, up to two trials per call: rejected trials leave the state untouched, accepted trials advance state and time together, sub-steps add up.",
-        assumptions=["NOT covered (DESIGN.md section 2): accuracy/convergence of TDVP-PS/PS2/VMF/CMF, norm and energy conservation, local-solver independence, the numerical quality of the "
+                    "error estimate, up to two trials per call: rejected trials leave the state untouched, accepted trials advance state and time together, sub-steps add up. "
+                    "The adaptive Taylor driver (distance / norm arbitrary positive, <= 3 trials per call): every trial = the polynomial of its own step on the level's start state. "
+                    "The real chain projector-splitting sweeps (tdvp_ps / tdvp_ps2, Krylov or solve_ivp local solver by contract stub, also with hopping operators): effective operator "
+                    "at every local step = projection of H on the current state, time book-keeping, identity run. The variable-mean-field scheme tdvp_vmf: solve_ivp replaced by a "
+                    "stub that evaluates the right-hand side once, eigh by contract: right-hand side of every site = (1/i) S_L^-1 (1 - P_i) F_i S_R^-1 with dense-block references "
+                    "(2 sites bond 2, thorough 3 sites / complex states; canonical gauge and force_ovlp), the matrices handed to eigh = overlaps of the dense blocks, "
+                    "clamp + regularisation of the eigenvalues as documented; float-build twins (3 sites, real LAPACK) as reachability witnesses.",
+        assumptions=["tdvp_vmf: one evaluation of the right-hand side (the ODE integration itself is scipy's); the left-canonical gauge is not re-derived (the gauge test is answered 'canonical', the "
+                     "equations are compared as polynomial identities on an arbitrary state); exp() is uninterpreted; tdvp_mu_vmf and tdvp_mu_cmf are not covered; a violated "
+                     "equation is reported through the float-build twins (the solver cannot satisfy the eigen-decomposition contracts to produce a model)",
+                     "NOT covered (DESIGN.md section 2): accuracy/convergence of TDVP-PS/PS2/VMF/CMF, norm and energy conservation, local-solver independence, the numerical quality of the "
                      "adaptive step-size heuristics - statements about Krylov/ODE float iterations. Their effective operators are covered by C08",
                      "canonicalise/compress are identity stubs here (assume-guarantee with C04/C05: they preserve the object when the bond limit suffices; bond limits are enforced in C05)",
                      "six-stage tableaux use product operators of bond dimension 1 and a product state to keep intermediate bond dimensions small",
                      "Mps.norm is an arbitrary positive number inside the adaptive harness (the controller's arithmetic is outside the claim)",
                      "the order of accuracy follows from C19 (tableaux satisfy the order conditions)"],
         trusted_base=["z3 5.1", "NumPy object loops"],
-        functions=[M.evolve, M._evolve_prop_and_compress, M._evolve_prop_and_compress_tdrk4, M._evolve_prop_and_compress_tdrk, mpomod.Mpo.contract, mlib.compressed_sum, mlib._sum])
+        functions=[M.evolve, M._evolve_tdvp_mu_vmf, mpsmod.integrand_func_factory, mpsmod.projector, mpsmod.transferMat, M._evolve_tdvp_ps, M._evolve_tdvp_ps2, M._evolve_prop_and_compress, M._evolve_prop_and_compress_tdrk4, M._evolve_prop_and_compress_tdrk, mpomod.Mpo.contract, mlib.compressed_sum, mlib._sum])
 
 
 if __name__ == "__main__":
